@@ -1,0 +1,101 @@
+//! Verification hooks (cargo feature `verif-hooks`, off by default).
+//!
+//! Instrumented twins of the atomics used by the concurrent buffer: each performs the real
+//! operation, but first and afterwards calls a registered callback with the location, the kind of
+//! access, the memory ordering the call site really passes and the value. The callback may block
+//! (deterministic scheduling) and may replace the value returned by a load (stale reads).
+//! Nothing in here is compiled unless the feature is enabled.
+use core::sync::atomic::{self, Ordering};
+
+/// An atomic access (or buffer allocation event) reported to the hook.
+#[derive(Clone, Copy, Debug)]
+pub struct Event { pub kind: u8, pub loc: usize, pub ord: Ordering, pub val: usize }
+
+/// `phase` 0 = before the operation, 1 = after it. For loads, a value returned in phase 1 replaces the loaded one.
+pub type Hook = fn(phase: u8, ev: &Event) -> Option<usize>;
+
+pub const LOAD: u8 = 0;
+pub const STORE: u8 = 1;
+pub const RMW: u8 = 2;
+/// A heap buffer was boxed (`loc` = its address).
+pub const BOX: u8 = 3;
+/// A heap buffer is about to be freed (`loc` = its address).
+pub const FREE: u8 = 4;
+
+static HOOK: atomic::AtomicUsize = atomic::AtomicUsize::new(0);
+
+/// Registers (or clears) the process-wide hook.
+pub fn set_hook(h: Option<Hook>) {
+    HOOK.store(h.map(|f| f as usize).unwrap_or(0), Ordering::SeqCst);
+}
+
+#[inline]
+fn call(phase: u8, ev: &Event) -> Option<usize> {
+    let p = HOOK.load(Ordering::SeqCst);
+    if p == 0 { None } else { let f: Hook = unsafe { core::mem::transmute::<usize, Hook>(p) }; f(phase, ev) }
+}
+
+/// Reports a buffer allocation event.
+pub fn buf_event(kind: u8, loc: usize) {
+    call(1, &Event { kind, loc, ord: Ordering::Relaxed, val: 0 });
+}
+
+#[derive(Default)]
+pub struct AtomicUsize(atomic::AtomicUsize);
+
+impl From<usize> for AtomicUsize {
+    fn from(v: usize) -> Self { Self(atomic::AtomicUsize::new(v)) }
+}
+
+impl AtomicUsize {
+    pub const fn new(v: usize) -> Self { Self(atomic::AtomicUsize::new(v)) }
+
+    pub fn load(&self, ord: Ordering) -> usize {
+        let loc = self as *const _ as usize;
+        call(0, &Event { kind: LOAD, loc, ord, val: 0 });
+        let v = self.0.load(ord);
+        call(1, &Event { kind: LOAD, loc, ord, val: v }).unwrap_or(v)
+    }
+
+    pub fn store(&self, v: usize, ord: Ordering) {
+        let loc = self as *const _ as usize;
+        call(0, &Event { kind: STORE, loc, ord, val: v });
+        self.0.store(v, ord);
+        call(1, &Event { kind: STORE, loc, ord, val: v });
+    }
+
+    pub fn fetch_add(&self, v: usize, ord: Ordering) -> usize {
+        let loc = self as *const _ as usize;
+        call(0, &Event { kind: RMW, loc, ord, val: v });
+        let old = self.0.fetch_add(v, ord);
+        call(1, &Event { kind: RMW, loc, ord, val: old });
+        old
+    }
+
+    pub fn fetch_sub(&self, v: usize, ord: Ordering) -> usize {
+        let loc = self as *const _ as usize;
+        call(0, &Event { kind: RMW, loc, ord, val: v.wrapping_neg() });
+        let old = self.0.fetch_sub(v, ord);
+        call(1, &Event { kind: RMW, loc, ord, val: old });
+        old
+    }
+}
+
+#[derive(Default)]
+pub struct AtomicBool(atomic::AtomicBool);
+
+impl AtomicBool {
+    pub fn load(&self, ord: Ordering) -> bool {
+        let loc = self as *const _ as usize;
+        call(0, &Event { kind: LOAD, loc, ord, val: 0 });
+        let v = self.0.load(ord);
+        call(1, &Event { kind: LOAD, loc, ord, val: v as usize }).map(|x| x != 0).unwrap_or(v)
+    }
+
+    pub fn store(&self, v: bool, ord: Ordering) {
+        let loc = self as *const _ as usize;
+        call(0, &Event { kind: STORE, loc, ord, val: v as usize });
+        self.0.store(v, ord);
+        call(1, &Event { kind: STORE, loc, ord, val: v as usize });
+    }
+}
